@@ -111,6 +111,9 @@ KNOWN_DEFECTS = [
      'ProxyCommand/RemoteCommand written with "=" keep the "=" in the value'),
     ('include-glob-unsorted',
      'Include globs are read in directory order, not sorted like glob(3)'),
+    ('keyword-equals-value-equals',
+     '"Keyword=value" with a value ending in "=" is taken as an unknown '
+     'keyword and ignored'),
 ]
 DEFECT_NAMES = [d[0] for d in KNOWN_DEFECTS]
 
@@ -612,14 +615,16 @@ class Model:
                 continue
 
             if kind == 'host':
-                matching = patlist(','.join(line[1]), self.host)
+                matching = any(wild(p, self.host) for p in line[1]
+                               if not p.startswith('!')) and \
+                    not any(wild(p[1:], self.host) for p in line[1]
+                            if p.startswith('!'))
                 in_block = True
 
                 if not matching:
                     self.false_conds += 1
 
-                if any(p.startswith('!') for a in line[1]
-                       for p in a.split(',')):
+                if any(p.startswith('!') for p in line[1]):
                     self.labels.add('host-negated')
 
                 continue
@@ -650,6 +655,10 @@ class Model:
                         if 'expand-per-parse' in self.flags:
                             self.expand_all(opts)
             elif kind == 'opt':
+                if 'keyword-equals-value-equals' in self.flags and \
+                        SEPS[line[-1][1]] == '=' and line[2][0].endswith('='):
+                    continue
+
                 if line[1] in self.kinds:
                     self.set_opt(line[1], [a.replace('@ROOT@', self.root)
                                            for a in line[2]], opts)
@@ -989,7 +998,6 @@ SSH_BOOLS = {'Compression': 'compression',
              'GSSAPIAuthentication': 'gssapiauthentication',
              'GSSAPIDelegateCredentials': 'gssapidelegatecredentials',
              'EnableSSHKeySign': 'enablesshkeysign',
-             'CanonicalizeFallbackLocal': 'canonicalizefallbacklocal',
              'PubkeyAuthentication': 'pubkeyauthentication'}
 SSH_SCALARS = {'BindAddress': 'bindaddress', 'HostKeyAlias': 'hostkeyalias',
                'ProxyJump': 'proxyjump', 'IdentityAgent': 'identityagent',
@@ -997,7 +1005,6 @@ SSH_SCALARS = {'BindAddress': 'bindaddress', 'HostKeyAlias': 'hostkeyalias',
                'ConnectTimeout': 'connecttimeout',
                'ServerAliveInterval': 'serveraliveinterval',
                'ServerAliveCountMax': 'serveralivecountmax',
-               'CanonicalizeMaxDots': 'canonicalizemaxdots',
                'PKCS11Provider': 'pkcs11provider',
                'PreferredAuthentications': 'preferredauthentications'}
 SSH_LISTS = {'IdentityFile': 'identityfile',
@@ -1186,9 +1193,14 @@ def run_client_sshg(case) -> CaseResult:
             gview = ssh_view(got, t['host'], lu)
 
             if gview[0] != 'ok':
+                fsg = make_fs_glob(root)
+                why = explain(lambda f: ClientModel(case, root, lu, f, fsg),
+                              got)
                 raise Violation('resolution', 'ssh -G accepts the '
-                                'file, asyncssh raises %r' % (raw_got[1],),
-                                'sshG:error')
+                                'file, asyncssh raises %r%s' % (
+                                    raw_got[1], ' (explained by known '
+                                    'defect: %s)' % why if why else ''),
+                                why or 'sshG:error')
 
             for key in SSH_KEYS:
                 gview[1].setdefault(key, [])
@@ -1254,7 +1266,7 @@ def template_dir(template: str) -> str:
         else:
             i += 1
 
-    head = template[:i]
+    head = template[:i].replace('%%', '%')
     return head[:head.rfind('/') + 1]
 
 
@@ -1497,7 +1509,9 @@ def _value(draw, name: str, sshg: bool, canon_changes: bool) -> List[str]:
     if kind == 'str':
         return [draw(s(['aes128-ctr', 'aes256-ctr,aes128-ctr', 'x,y']))]
     if kind == 'bool':
-        return [draw(s(BOOLS))]
+        # ssh accepts only yes/no for Compression
+        return [draw(s(BOOLS if not (sshg and name == 'Compression') else
+                       ['yes', 'no', 'Yes', 'NO']))]
     if kind == 'boolstr':
         if draw(st.booleans()):
             return [draw(s(BOOLS))]
@@ -1517,7 +1531,8 @@ def _value(draw, name: str, sshg: bool, canon_changes: bool) -> List[str]:
     if name == 'SetEnv':
         pool = ['A=1', 'B=two', 'LANG=C', 'X=a=b'] + \
             (['C=x y'] if True else [])
-        return draw(st.lists(s(pool), min_size=1, max_size=3))
+        return draw(st.lists(s(pool), min_size=1, max_size=3,
+                             unique_by=lambda v: v.split('=')[0]))
     if name == 'SendEnv':
         return draw(st.lists(s(['LANG', 'LC_*', 'A', 'B?', 'TERM']),
                              min_size=1, max_size=3))
@@ -1603,16 +1618,27 @@ def client_case(draw, tier: str, sshg: bool):
         pool = [n for n in pool if n != 'Hostname']
         focus = [n for n in focus if n != 'Hostname'] or ['User']
 
-    def opt_line():
-        name = draw(st.sampled_from(focus)) if draw(st.integers(0, 4)) \
-            else draw(st.sampled_from(pool))
+    def opt_line(name=None):
+        if name is None:
+            name = draw(st.sampled_from(focus)) if draw(st.integers(0, 4)) \
+                else draw(st.sampled_from(pool))
 
         if CLIENT_KINDS[name] == 'nosplit':
             raw = _nosplit_value(draw, name, sshg, canon_changes)
-            return ['nosplit', name, raw, _style(draw, 0)]
+            style = _style(draw, 0)
+
+            if draw(st.integers(0, 3)):
+                style[1] = draw(st.sampled_from([0, 5, 6]))
+
+            return ['nosplit', name, raw, style]
 
         args = _value(draw, name, sshg, canon_changes)
-        return ['opt', name, args, _style(draw, len(args))]
+        style = _style(draw, len(args))
+
+        if name == 'ProxyJump':
+            style[4] = 0        # OpenSSH takes ProxyJump from the raw line
+
+        return ['opt', name, args, style]
 
     def criteria(is_top: bool):
         kinds = ['host', 'host', 'originalhost', 'user', 'localuser', 'exec']
@@ -1657,8 +1683,11 @@ def client_case(draw, tier: str, sshg: bool):
 
     def header(is_top: bool):
         if draw(st.booleans()):
-            n = draw(st.sampled_from([1, 1, 2, 3]))
-            pats = [_patlist(draw, HOST_PATS) for _ in range(n)]
+            # ssh_config(5): Host patterns are separated by whitespace
+            # (commas are for pattern-lists, i.e. Match arguments)
+            n = draw(st.sampled_from([1, 1, 2, 3, 4]))
+            pats = [('!' if draw(st.integers(0, 4)) == 0 else '') +
+                    draw(st.sampled_from(HOST_PATS)) for _ in range(n)]
             return ['host', pats, _style(draw, 0, False)]
 
         return ['match', criteria(is_top), _style(draw, 1, False)]
@@ -1714,7 +1743,7 @@ def client_case(draw, tier: str, sshg: bool):
         for _ in range(draw(st.integers(0, max_lines))):
             pick = draw(st.integers(0, 19))
 
-            if pick <= 5:
+            if pick <= 4:
                 lines.append(header(is_top))
             elif pick <= 7 and candidates:
                 lines.append(include_line(candidates))
@@ -1740,8 +1769,33 @@ def client_case(draw, tier: str, sshg: bool):
     for key in t1:
         files[key] = body(4, t2, False)
 
+    if t1 and t2 and draw(st.booleans()):
+        # make sure the tree is two deep now and then
+        key = draw(st.sampled_from(t1))
+        files[key].insert(draw(st.integers(0, len(files[key]))),
+                          include_line(t2))
+
     top = ['t/main']
     files['t/main'] = body(10 if big else 7, t1 + t2, True)
+
+    if draw(st.integers(0, 2)) == 0:
+        # the conf.d idiom: several files settle the same option, the
+        # order in which a glob delivers them decides
+        names = draw(st.lists(st.sampled_from(
+            ['10-x.conf', '20-y.conf', '05-z.conf', '15-w.conf',
+             '99-last.conf', 'a.conf']), min_size=2, max_size=4,
+            unique=True))
+
+        for name in names:
+            lines = files.setdefault('h/conf.d/' + name, [])
+            lines.insert(0, opt_line(focus[0]))
+
+        glob = draw(st.sampled_from(['*.conf', '*', '*.conf', '??-*.conf']))
+        how = draw(st.sampled_from(['rel', 'rel', 'tilde']))
+        files['t/main'].insert(
+            draw(st.integers(0, len(files['t/main']))),
+            ['include', [['h', 'conf.d/' + glob, how]],
+             _style(draw, 0, False)])
 
     if not sshg and draw(st.integers(0, 7)) == 0:
         top.append('t/second')
@@ -1895,7 +1949,34 @@ def server_case(draw, tier: str):
 # server end to end
 # ---------------------------------------------------------------------------
 
+E2E_GOOD = ['keys/f/alice', 'keys/f/alice.pub', 'keys/f/k-alice',
+            'keys/d/alice/authorized_keys']
+E2E_DECOYS = ['keys/other/evil', 'keys/other/evil.pub',
+              'keys/other/evild/authorized_keys', 'keys/evil',
+              'keys/evil.pub', 'keys/authorized_keys',
+              'keys/k-evil', 'keys/other/k-evil',
+              'other/evil', 'other/evil.pub', 'other/evild/authorized_keys',
+              'evil', 'evil.pub', 'authorized_keys', 'home/authorized_keys']
+E2E_TEMPLATES = ['@ROOT@/keys/d/%u/authorized_keys', '@ROOT@/keys/f/%u.pub',
+                 '@ROOT@/keys/f/k-%u', '@ROOT@/keys/f/%u']
+E2E_USERS = ['alice', 'mallory', '%u', 'k-alice', 'evil',
+             '..', '../evil', '../other/evil', '../other/evild',
+             '../../other/evil', '../../other/evild', '../../evil',
+             '../../../other/evil', 'x/../../other/evil',
+             '../k-evil', '../../keys/other/evil',
+             'alice/../../other/evil', 'alice/../../../other/evil',
+             './../other/evil', '..\\other\\evil', '..\\evil',
+             '~', '~/', '${HOME}', '../../home',
+             '\uff0e\uff0e/other/evil', '..\uff0fother\uff0fevil',
+             '\uff0e\uff0e\uff0fother\uff0fevild', '.\u00ad./other/evil',
+             '\u2025/evil', '..\u2215evil', '/', 'alice/..', 'C:evil']
+
+
 def run_server_e2e(case) -> CaseResult:
+    """A server whose config names <root>/keys/{f,d}/ as the place where
+    authorized keys live; copies of a key the attacker owns are listed in
+    files outside those directories, wherever a traversal would land"""
+
     # imported here: the in-memory engine patches time.monotonic per case
     from ..engines import memwire  # pylint: disable=import-outside-toplevel
     from ..engines.memwire import asyncssh  # pylint: disable=C0415
@@ -1907,35 +1988,22 @@ def run_server_e2e(case) -> CaseResult:
     pair = None
 
     try:
-        keys = os.path.join(root, 'keys')
-        os.makedirs(os.path.join(keys, 'alice'))
-        os.makedirs(os.path.join(root, 'other'))
-        os.makedirs(os.path.join(root, 'home'))
         good = memwire.key('c18-alice')
         evil = memwire.key('c18-evil')
-        good_pub = good.export_public_key('openssh').decode()
-        evil_pub = evil.export_public_key('openssh').decode()
 
-        # legitimate layout, in every shape the templates use
-        for rel in ('alice/authorized_keys', 'alice.pub', 'k-alice'):
-            with open(os.path.join(keys, rel), 'w') as f:
-                f.write(good_pub)
+        for rels, key in ((E2E_GOOD, good), (E2E_DECOYS, evil)):
+            pub = key.export_public_key('openssh').decode()
 
-        with open(os.path.join(keys, 'alice', 'extra'), 'w') as f:
-            f.write(good_pub)
+            for rel in rels:
+                path = os.path.join(root, rel)
+                os.makedirs(os.path.dirname(path), exist_ok=True)
 
-        # files the attacker controls, outside keys/
-        for rel in ('other/authorized_keys', 'other/evil', 'other/evil.pub',
-                    'home/authorized_keys', 'evil', 'evil.pub',
-                    'authorized_keys'):
-            with open(os.path.join(root, rel), 'w') as f:
-                f.write(evil_pub)
+                with open(path, 'w') as f:
+                    f.write(pub)
 
-        os.makedirs(os.path.join(root, 'other', 'evil.d'))
-
-        with open(os.path.join(root, 'other', 'evil.d', 'authorized_keys'),
-                  'w') as f:
-            f.write(evil_pub)
+        # so that <dir>/k-../.. resolves
+        os.makedirs(os.path.join(root, 'keys', 'f', 'k-..'))
+        os.makedirs(os.path.join(root, 'home'), exist_ok=True)
 
         cfg = os.path.join(root, 'sshd_config')
         lines = list(case['pre']) + ['AuthorizedKeysFile ' +
@@ -1968,8 +2036,7 @@ def run_server_e2e(case) -> CaseResult:
             try:
                 pair.handshake()
                 ok = True
-            except (asyncssh.DisconnectError, asyncssh.Error,
-                    ConnectionError) as exc:
+            except (asyncssh.Error, ConnectionError) as exc:
                 ok = False
                 labels.add('refused:' + type(exc).__name__)
             except memwire.Stuck:
@@ -1987,8 +2054,9 @@ def run_server_e2e(case) -> CaseResult:
             if case['attacker']:
                 raise Violation(
                     'unsafe-substitution', 'user %r authenticated with a key '
-                    'that is only listed outside %s (template %r)' %
-                    (raw_user, keys, template), 'server-e2e:decoy-key')
+                    'that is only listed outside the directory named by '
+                    'AuthorizedKeysFile %r' % (raw_user, template),
+                    'server-e2e:decoy-key')
         elif not case['attacker'] and user == 'alice':
             raise Violation('resolution', 'alice could not log in with '
                             'the key listed under %r' % (template,),
@@ -2006,18 +2074,6 @@ def run_server_e2e(case) -> CaseResult:
             pair.close()
 
         shutil.rmtree(root, ignore_errors=True)
-
-
-E2E_TEMPLATES = ['@ROOT@/keys/%u/authorized_keys', '@ROOT@/keys/%u.pub',
-                 '@ROOT@/keys/k-%u', '@ROOT@/keys/%u']
-E2E_USERS = ['alice', '../other/evil', '..', '../other', '../evil',
-             '../other/evil.d', '~/', '~', '${HOME}', '../home',
-             '..\\other\\evil', 'alice/extra', 'alice/../../other/evil',
-             '\uff0e\uff0e/other', '..\uff0fother\uff0fevil',
-             '\uff0e\uff0e\uff0fother', '.\u00ad./other/evil', 'k-alice',
-             '@ROOT@/other/evil', '@ROOT@/other', '/', 'mallory', '%u',
-             '../keys/../other/evil', './../other/evil', 'alice/..',
-             '../k-alice/../other']
 
 
 @st.composite
